@@ -97,6 +97,19 @@ pub fn leaf_forms() -> Vec<Expr>
 		}
 	}
 	// struct literals
+	// members whose value is a reference that starts with the member's own name
+	let same = |steps: Vec<Step>, addr: u8| Expr::Ref(Reference { addr, base: "m".into(), steps });
+	for fields in [
+		vec![("m".to_string(), Some(same(vec![], 0)))],
+		vec![("m".to_string(), Some(same(vec![Step::Index(int("1"))], 0)))],
+		vec![("m".to_string(), Some(same(vec![Step::Member("n".to_string())], 0)))],
+		vec![("m".to_string(), Some(same(vec![Step::Index(id("i")), Step::Member("n".to_string())], 0))), ("n".to_string(), None)],
+		vec![("m".to_string(), Some(same(vec![], 1)))],
+		vec![("m".to_string(), Some(same(vec![Step::Index(int("0"))], 1)))],
+	]
+	{
+		v.push(Expr::Struct { name: "S".into(), fields: fields.clone(), trailing_comma: false });
+	}
 	for fields in [
 		vec![],
 		vec![("m".to_string(), Some(int("1")))],
